@@ -32,6 +32,19 @@ func checkC01(w *World, r *Report) {
 
 	pools := w.pools()
 	r.floor("sync.Pool variables/fields found", len(pools), 20)
+	// ---- R01.10: a process-wide counter or flag that parse/render paths write never decides a
+	// result (the value is a fact about the process's history, not about this render)
+	{
+		var roots10 []*ssa.Function
+		for _, m := range []string{"Render", "RenderTo", "Load", "ParseTemplate", "RegisterString"} {
+			roots10 = append(roots10, w.ssaFunc(w.method("Engine", m)))
+		}
+		reach10 := w.reachableFrom(roots10)
+		checkSharedCounters(w, r, "R01.10", w.pkgFuncs(), reach10, func(owner string, root ssa.Value) bool {
+			g, isG := root.(*ssa.Global)
+			return isG && !isSyncPool(deref(g.Type()))
+		}, roots10)
+	}
 	ro := w.renderOnlyReachable()
 	roots := w.renderRoots()
 	cut := map[*ssa.Function]bool{w.ssaFunc(w.method("Parser", "Parse")): true}
